@@ -129,6 +129,9 @@ def campaign(name, exe, work, seed, runs, max_len, corpus_dirs, secs=0, jobs=1):
     env["VERIF_FUZZ_STATS"] = os.path.join(wd, "counters.json")
     cmd = [exe, "-seed=%d" % (seed or 1), "-max_len=%d" % max_len, "-timeout=25", "-rss_limit_mb=4096", "-print_final_stats=1",
            "-artifact_prefix=" + os.path.join(wd, "art") + "/", "-use_value_profile=1", "-len_control=50"]
+    dict_name = {"pattern": "pattern.dict", "patdiff": "pattern.dict", "func": "func.dict"}.get(name.split("@")[0])
+    if dict_name and os.path.exists(os.path.join(d.VERIF, "corpus", dict_name)):
+        cmd += ["-dict=" + os.path.join(d.VERIF, "corpus", dict_name)]
     if secs:
         cmd += ["-max_total_time=%d" % secs]
         if jobs > 1:
